@@ -55,6 +55,19 @@ CHECKS = {
              "line/col must equal an independent line/column reference at the token's last offset, and the span must select the lexeme.",
         note="inputs with a lone CR are judged on offsets only; token line/col describe the token's last character. " + TRUST,
         design="2/C13"),
+    "C14": dict(
+        category="model_checking", engine="E1",
+        technique="exhaustive enumeration of inputs x the four error levels as a product state; relational invariant over the four runs; reuse histories on one Parser",
+        text="For every core-grammar statement, every 1-token mutant of the simplest seeds, and every script of <= 3 statements over valid / "
+             "invalid-early / invalid-late / invalid-inside-a-speculative-branch / doubly-invalid / empty parts, in 8 (thorough 34) "
+             "dialects and max_errors in {1,3}: IGNORE and WARN return equal trees; RAISE raises exactly when WARN's first emitting "
+             "check logged errors, carries the same errors and renders min(n, max_errors) of them plus the '... and k more' tail; "
+             "IMMEDIATE raises the first of them; the parser's level is restored. For generation of core-grammar trees from 7 source "
+             "dialects into all 34 targets: IGNORE/WARN/RAISE texts agree, RAISE/IMMEDIATE raise exactly when WARN logs, message count "
+             "obeys max_unsupported. Histories of 3 inputs on one reused Parser must answer like a fresh one.",
+        note="log capture on logger 'sqlglot' and counting wrappers on Parser.check_errors/_try_parse/raise_error are attached at run "
+             "time (exit 2 if missing); inputs with internal exceptions are C05's. " + TRUST,
+        design="2/C14"),
     "C18": dict(
         category="model_checking", engine="E2",
         technique="explicit-state BFS over operation histories on the real MappingSchema, reference-model agreement on every transition",
